@@ -165,7 +165,7 @@ func c13Setup() c13Env {
 	_ = slog.RegisterLevel(slog.Level(c13Custom), "c13err", slog.RegWithPrintToErrorDevice(true), slog.RegWithTreatedAsLevel(slog.ErrorLevel))
 	is.SetDebugMode(false)
 	is.SetTraceMode(false)
-	env := c13Env{errdev: map[int]bool{}, as: treatedAs(), dbg: false, inTesting: slog.VerifInTesting(), flags: int64(slog.GetFlags())}
+	env := c13Env{errdev: map[int]bool{}, as: c13TreatedAs(), dbg: false, inTesting: slog.VerifInTesting(), flags: int64(slog.GetFlags())}
 	for _, l := range slog.VerifErrDev() {
 		env.errdev[int(l)] = true
 		env.errdevList = append(env.errdevList, int(l))
@@ -769,4 +769,12 @@ func replayC13(r *Run, file string) {
 	b.out, b.err, b.log = c13Spawn(job, 120*time.Second)
 	c13Merge(r, b, 120*time.Second)
 	finishReplay(r)
+}
+
+// the treated-as relation of the statement for this driver's process: the built-ins plus the
+// custom level this driver registers as Error (never read back from the implementation's table)
+func c13TreatedAs() map[int]int {
+	as := treatedAs()
+	as[c13Custom] = 2
+	return as
 }
